@@ -346,9 +346,10 @@ def callThrough (ok : Name → Val → Bool) (body : Binding → BodyRes) (s : S
 
 /-- the wrapper: parameter checks (raising at the first failure), call-through, return check -/
 def wrapperRun (ok : Name → Val → Bool) (body : Binding → BodyRes) (s : Sig) (c : Call) : Outcome :=
-  match (runChecks ok (argChecks s c)).2 with
-  | some x => ⟨(runChecks ok (argChecks s c)).1, .paramViolation x.1 x.2, 0, none, none⟩
-  | none => callThrough ok body s c (runChecks ok (argChecks s c)).1
+  let rc := runChecks ok (argChecks s c)
+  match rc.2 with
+  | some x => ⟨rc.1, .paramViolation x.1 x.2, 0, none, none⟩
+  | none => callThrough ok body s c rc.1
 
 /-- the declared parameter order with kinds (what `iter_func_args` must yield) -/
 def declared (s : Sig) : List (Kind × Name) :=
